@@ -706,6 +706,16 @@ export function gen(rng, params, mode) {
       return [A("describe"), A(String(counter++)), p2, [["entry.ts", tsOfProg(p2)]], vals.map(encVal)];
     }
     const vals = genValues(rng, p, Number(params[0] || 12));
+    // sometimes further parsers in the same module, over the named types the first one mentions (hoisted runtypes such as the
+    // one `B[]` are shared by all of them): only the first export is printed and compiled again
+    if (rng.chance(1, 3)) {
+      const ns = p[1].filter((d) => d[2].length === 0).map((d) => d[1]);
+      if (ns.length) {
+        const r = () => [A("ref"), rng.pick(ns)];
+        const shapes = [() => [A("array"), r()], () => r(), () => [A("obj"), [["x", A("false"), [A("array"), r()]]], A("none")], () => [A("obj"), [["x", A("false"), r()], ["y", A("true"), r()]], A("none")], () => [A("tuple"), [r(), r()], A("none")]];
+        p[2] = [p[2][0], ["E1", rng.pick(shapes)()], ...(rng.chance(1, 2) ? [["E2", rng.pick(shapes)()]] : [])];
+      }
+    }
     return [A("describe"), A(String(counter++)), p, [["entry.ts", tsOfProg(p)]], vals.map(encVal)];
   }
   const p = genProg(rng);
@@ -847,8 +857,19 @@ export function makeRunner(rt_, mode, build) {
       try { parsers = (await loadEmitted(build, compiled[1])).buildParsers(HARNESS_FORMATS); } catch (e) { return [[A("load-error")], [A("oracle"), A("fail"), A("c04.load")]]; }
       let text;
       try { text = parsers[name].describe(); } catch (e) { return [[A("describe-throws"), String(e && e.message).slice(0, 100)], [A("oracle"), A("fail"), A("c15.throws")]]; }
-      if (compiled2 == null) return [[A("described"), text], [A("oracle"), A("ok")]];
+      // describe() is a function of the parser: describing it again, or after the other parsers of the module (they share the
+      // hoisted runtype objects), changes nothing; and another parser prints what it prints in a module instance of its own
       const fail = [];
+      try {
+        const others = Object.keys(parsers).filter((o) => o !== name);
+        for (const o of others) parsers[o].describe();
+        if (parsers[name].describe() !== text) fail.push(A("c15.stable"));
+        if (others.length) {
+          const freshP = (await loadEmitted(build, compiled[1])).buildParsers(HARNESS_FORMATS);
+          for (const o of others) if (freshP[o].describe() !== parsers[o].describe()) { fail.push(A("c15.stable")); break; }
+        }
+      } catch (e) { fail.push(A("c15.throws")); }
+      if (compiled2 == null) return [[A("described"), text], fail.length ? [A("oracle"), A("fail"), ...fail] : [A("oracle"), A("ok")]];
       const names = [...text.matchAll(/^type ([A-Za-z0-9_$]+) =/gm)].map((m) => m[1]);
       if (new Set(names).size !== names.length) fail.push(A("c15.once"));
       if (head(compiled2) !== "js") { fail.push(A("c15.compile")); return [[A("described"), text], [A("oracle"), A("fail"), ...fail]]; }
